@@ -40,8 +40,22 @@ func Entries[M ~map[K]V, K comparable, V any](m M) []Entry[K, V] {
 		return nil
 	}
 	ks := make([]keyed[K], 0, n)
+	newPtrs := 0
 	for k := range m {
-		ks = append(ks, keyed[K]{k: k, s: keyString(k)})
+		s, isNew := keyString(k)
+		if isNew {
+			newPtrs++
+		}
+		ks = append(ks, keyed[K]{k: k, s: s})
+	}
+	if newPtrs >= 2 {
+		// two pointers without a registered order met in one iteration: their
+		// relative order is not owned by the simulator (must stay zero)
+		if s := cur.Load(); s != nil {
+			mu.Lock()
+			s.Probe["ptr_order_race"]++
+			mu.Unlock()
+		}
 	}
 	if n > 1 {
 		g, s := self()
@@ -72,39 +86,39 @@ func Entries[M ~map[K]V, K comparable, V any](m M) []Entry[K, V] {
 	return out
 }
 
-func keyString(k any) string {
+func keyString(k any) (string, bool) {
 	switch x := k.(type) {
 	case string:
-		return x
+		return x, false
 	case int:
-		return strconv.Itoa(x)
+		return strconv.Itoa(x), false
 	}
 	rv := reflect.ValueOf(k)
 	switch rv.Kind() {
 	case reflect.String:
-		return rv.String()
+		return rv.String(), false
 	case reflect.Pointer, reflect.UnsafePointer, reflect.Chan, reflect.Func:
-		return "p" + strconv.Itoa(ptrOrdinal(rv.Pointer()))
+		n, isNew := ptrOrdinal(rv.Pointer())
+		return "p" + strconv.Itoa(n), isNew
 	}
-	return fmt.Sprintf("%T|%v", k, k)
+	return fmt.Sprintf("%T|%v", k, k), false
 }
 
 // ptrOrdinal gives pointer-typed map keys a stable order: the order in which
 // they were registered (RegisterPtr) or first seen.
-func ptrOrdinal(p uintptr) int {
+func ptrOrdinal(p uintptr) (int, bool) {
 	s := cur.Load()
 	mu.Lock()
 	defer mu.Unlock()
 	if s == nil {
-		return int(p)
+		return int(p), false
 	}
 	if n, ok := s.ptrSeq[p]; ok {
-		return n
+		return n, false
 	}
 	s.ptrNext++
 	s.ptrSeq[p] = s.ptrNext
-	s.Probe["ptr_first_seen_in_iteration"]++
-	return s.ptrNext
+	return s.ptrNext, true
 }
 
 // RegisterPtr fixes the canonical order of a pointer used as a map key.
